@@ -972,16 +972,25 @@ def do_pdf_sym_inputs(i):
                 st("pdfsym-input/bin-edge-rounding-only")
 
 
+def guarded(fn, i, sig):
+    """an exception of the library inside a stratum is a failure of that stratum with the case index as replay, not a
+    crash of the harness"""
+    try:
+        fn(i)
+    except Exception as e:  # noqa
+        fail(sig + ":raises", f"{type(e).__name__}: {e}", {"stratum": fn.__name__, "index": i})
+
+
 for i in range(18 if TIER == "quick" else 72):
-    do_shapes(i)
+    guarded(do_shapes, i, "shape:nd-or-int-input")
 for i in range(20 if TIER == "quick" else 80):
-    do_spherical(i)
+    guarded(do_spherical, i, "spherical")
 for i in range(12 if TIER == "quick" else 36):
-    do_pdf_shapes(i)
+    guarded(do_pdf_shapes, i, "pdf:nd-shape")
 for i in range(24 if TIER == "quick" else 96):
-    do_pdf_grid(i)
+    guarded(do_pdf_grid, i, "pdf:grid")
 for i in range(18 if TIER == "quick" else 90):
-    do_pdf_sym_inputs(i)
+    guarded(do_pdf_sym_inputs, i, "pdf:symmetry:inputs")
 
 # ---- the remaining plotting wrappers: hemisphere="both" and log= of Vector3d.pole_density_function, the axes method
 # called with a Vector3d, and the inverse pole figure (InversePoleFigurePlot.pole_density_function through
